@@ -451,3 +451,11 @@ def proof_failure(rep, theorems_note):
 
 def rng(tag=""):
     return random.Random("%d/%s" % (seed(), tag))
+
+
+def jobs():
+    """worker threads for subprocess fan-out (the sandbox has 16 cores; leave some to concurrently running checks)"""
+    try:
+        return max(2, min(12, int(os.environ.get("VERIF_JOBS", "0")) or (os.cpu_count() or 4) - 4))
+    except ValueError:
+        return 8
